@@ -36,6 +36,8 @@ from .. import c19_geom as G
 FIXED_SLICE = '1'      # Parallel2dGeometry.__getitem__ passes the translated det_pos_init
 FIXED_CURV = '1'       # ConeBeamGeometry.__getitem__ passes a scalar curvature radius
 FIXED_COVER = '0'      # cone_beam_geometry / helical_geometry extents
+FIXED_INPUT_ALIAS = '0'   # constructors keep references to caller-owned translation / src_to_det_init / init_matrix
+FIXED_ATTR_ALIAS = '0'    # array-valued attributes are the (writable) internal arrays
 
 SLICEABLE = ('par2d', 'par3dax', 'fan', 'cone')
 
@@ -544,6 +546,83 @@ def random_case(rnd):
     return g, a, rand_params(rnd, g['det']['kind'], 3)
 
 
+# ------------------------------------------------------------------ histories (GeomHistory)
+def _hg(cls, **kw):
+    nd = 2 if cls in ('par2d', 'fan') else 3
+    g = {'id': 'history', 'cls': cls, 't': V(*[0] * nd), 'p0': [], 'k': V(0, 0, 1) if cls in ('par3dax', 'cone') else [],
+         'e': [], 'ax': [], 'rs': Q(0) if cls.startswith('par') else Q(5), 'rd': Q(0) if cls.startswith('par') else Q(3),
+         'z0': Q(0), 'dz': Q(0), 'det': {'kind': 'flat', 'r': Q(0)}, 'ss': V(*[0] * nd), 'ds': V(*[0] * nd), 'mat': []}
+    g.update(kw)
+    return g
+
+
+K304 = V(F(3, 5), 0, F(4, 5))
+HIST_GEOMS = {
+    'par2d': _hg('par2d', p0=V(3, 4), ax=[V(F(4, 5), F(-3, 5))], t=V(1, -2)),
+    'par2d-mat': _hg('par2d', mat=[V(F(3, 5), F(-4, 5), 1), V(F(4, 5), F(3, 5), -2)]),
+    'fan': _hg('fan', e=V(F(3, 5), F(4, 5)), ax=[V(F(4, 5), F(-3, 5))], t=V(1, -2)),
+    'par3dax': _hg('par3dax', k=K304, p0=V(1, 2, -6), ax=[V(F(4, 5), 0, F(-3, 5)), V(0, 1, 0)], t=V(F(1, 2), 0, -1)),
+    'par3dax-ez': _hg('par3dax', k=V(0, 0, 1), p0=V(1, 2, -6), ax=[V(1, 0, 0), V(0, 0, 1)], t=V(1, -2, 3)),
+    'par3dax-mat': _hg('par3dax', mat=[V(0, 0, -1, 0), V(0, 1, 0, 1), V(1, 0, 0, 1)]),
+    'par3deu': _hg('par3deu', p0=V(1, 2, -6), ax=[V(F(4, 5), 0, F(-3, 5)), V(0, 1, 0)], t=V(1, 0, -1)),
+    'cone': _hg('cone', k=K304, e=V(F(4, 5), 0, F(-3, 5)), ax=[V(0, 1, 0), K304], t=V(0, 1, F(1, 2)), dz=Q(F(1, 2)),
+                z0=Q(F(1, 2))),
+    'cone-ez': _hg('cone', k=V(0, 0, 1), e=V(0, 1, 0), ax=[V(1, 0, 0), V(0, 0, 1)], t=V(1, -2, 3)),
+    'cone-mat': _hg('cone', mat=[V(0, 0, -1, 0), V(0, 1, 0, 1), V(1, 0, 0, 1)]),
+}
+HIST_ANGLE = {'bc': Q(F(3, 5)), 'bs': Q(F(4, 5)), 'm': 1}
+HIST_EULER = [{'bc': Q(F(3, 5)), 'bs': Q(F(4, 5)), 'm': 1}, {'bc': Q(F(5, 13)), 'bs': Q(F(12, 13)), 'm': 1},
+              {'bc': Q(F(-8, 17)), 'bs': Q(F(15, 17)), 'm': 1}]
+
+
+def hist_params(g):
+    nd = 2 if g['cls'] in ('par2d', 'fan') else 3
+    lin = lambda q: {'q': Q(q), 'c': [1, 1], 's': [0, 1]}
+    u = [lin(F(-5, 2))] if nd == 2 else [lin(F(-5, 2)), lin(1)]
+    return (HIST_EULER if g['cls'] == 'par3deu' else HIST_ANGLE), u
+
+
+def history_events(name, hist, label):
+    """Replay one exported history on the history geometry `name`.  Returns the events (a 'val' bundle for the
+    final Query and, if the angle grid is caller-owned, an 'angles' slice event) or [] if not applicable."""
+    g = HIST_GEOMS[name]
+    a, u = hist_params(g)
+    ev = {'k': 'val', 'g': g, 'a': a, 'u': u, 'form': 'history', 'rot': [], 'ref': [], 'axes': [], 'detpt': [],
+          'src': [], 'd2s': [], 'rel': [], 'dev': 0, 'err': '', 'mutated': label,
+          'shapes': {q: NA_SHAPE for q in ('rot', 'ref', 'axes', 'detpt', 'src', 'd2s')}}
+    info = {'variant': {'history': hist, 'geometry': name}, 'seed': 0, 'where': 'constructor'}
+    out = []
+    try:
+        res = G.apply_history(g, hist, a, u)
+        if res is None:
+            return []
+        geom, angles0 = res
+        info['where'] = 'query'
+        obs = G.evaluate(geom, g, a, u, 'scalar', random.Random(0))
+        for k in ('rot', 'ref', 'axes', 'detpt', 'src', 'd2s'):
+            if k in obs:
+                arr = np.asarray(obs[k], dtype=float)
+                ev['shapes'][k] = list(arr.shape)
+                ev[k] = G.project(arr) if arr.ndim in (1, 2) else [[G.OFFQ]]
+        if 'd2sn' in obs:
+            ev['rel'] = G.relational(obs['d2sn'], obs['d2s'])
+        if angles0 is not None:
+            now = list(geom.angles)
+            sl = {'n': len(angles0), 'start': 99, 'stop': 99, 'step': 1}
+            out.append(({'k': 'slice', 'cls': g['cls'], 'sl': sl, 'mutated': label, 'form': 'history',
+                         'obs': [i + 1 if i < len(now) and now[i] == x else 0 for i, x in enumerate(angles0)]},
+                        {'exc': '', 'exp': list(range(1, len(angles0) + 1)), 'history': hist, 'geometry': name}))
+    except Exception as e:
+        ev['err'] = type(e).__name__
+        info['exc'] = type(e).__name__ + ': ' + str(e)[:160]
+    out.insert(0, (ev, info))
+    return out
+
+
+def mut_label(step):
+    return ('caller:' + step['what']) if step['act'] == 'MutateCaller' else ('returned-' + step['what'])
+
+
 # ------------------------------------------------------------------ reporting
 def parse_tagged(output, tag):
     """<<"TAG", line, id, ...>> records printed by the trace spec (whitespace / line-wrap tolerant)."""
@@ -592,7 +671,10 @@ def report_event(ctx, seen, ev, info, clause, tlc=None):
             d['expected'] = info['exp']
         if tlc:
             d['tlc_clauses'] = tlc
-        report(ctx, seen, signature(ev['g'], ev['form'], clause, info.get('where', 'query')), d)
+        sig = signature(ev['g'], ev['form'], clause, info.get('where', 'query'))
+        if ev.get('mutated'):
+            sig['mutated'] = ev['mutated']
+        report(ctx, seen, sig, d)
     elif k == 'cover':
         axes = [i for i, x in enumerate(ev['exc']) if x > 4]
         for ax in (axes or [0]):
@@ -603,8 +685,11 @@ def report_event(ctx, seen, ev, info, clause, tlc=None):
     elif k == 'shape':
         report(ctx, seen, shape_sig(ev, clause), {'stage': 'shape', 'event': ev, 'expected': info['exp'], 'exc': info['exc']})
     else:
-        report(ctx, seen, {'cls': ev['cls'], 'form': 'slice', 'clause': clause},
-               {'stage': 'slice', 'event': ev, 'expected': info['exp'], 'exc': info['exc']})
+        sig = {'cls': ev['cls'], 'form': ev.get('form', 'slice'), 'clause': clause}
+        if ev.get('mutated'):
+            sig['mutated'] = ev['mutated']
+        report(ctx, seen, sig, {'stage': 'slice', 'event': ev, 'expected': info['exp'], 'exc': info['exc'],
+                                'history': info.get('history'), 'geometry': info.get('geometry')})
 
 
 # ------------------------------------------------------------------ check
@@ -628,7 +713,10 @@ def run(ctx):
         'slices and negative steps are outside the claim',
         'factory coverage: every corner of the volume at every angle of the produced geometry; helical_geometry: '
         'horizontal detector axis only (the vertical extent is a Tam-Danielsson window, not full coverage)',
-        'output shape rule as documented: broadcast(bcast_mparam, bcast_dparam).shape + (ndim,)']
+        'output shape rule as documented: broadcast(bcast_mparam, bcast_dparam).shape + (ndim,)',
+        'histories (GeomHistory): constructor arrays are float64 ndarrays owned by the caller and overwritten after '
+        'construction; arrays handed out by the geometry are overwritten by the caller (a read-only array that refuses '
+        'the write is fine); every later query must answer like the history-free reference of the construction parameters']
     try:
         import astra  # noqa: F401
     except Exception:
@@ -644,10 +732,16 @@ def run(ctx):
     base_env = {'GEOM_TIER': tier, 'OUT_FILE': os.devnull, 'GEOM_FIXED_SLICE': FIXED_SLICE,
                 'GEOM_FIXED_CURV': FIXED_CURV, 'GEOM_FIXED_COVER': FIXED_COVER}
     base_env['GEOM_CLS'] = 'all'
+    base_env.update(GEOM_FIXED_INPUT_ALIAS=FIXED_INPUT_ALIAS, GEOM_FIXED_ATTR_ALIAS=FIXED_ATTR_ALIAS,
+                    GEOM_HISTORY_MODEL='ref')
+    exp_hist = os.path.join(work, 'history_cases.ndjson')
     classes = ('par2d', 'fan', 'par3dax', 'par3deu', 'cone')
     jobs = [('props', 'MC_Geom.tla', 'MC_Geom_props.cfg', base_env, 6, 'ok'),
             ('shape-slice-rules', 'MC_GeomShape.tla', 'MC_GeomShape.cfg', dict(base_env, OUT_FILE=exp_shape), 1, 'ok'),
-            ('selftest-bogus', 'MC_Geom.tla', 'MC_Geom_bogus.cfg', base_env, 2, 'any')]
+            ('selftest-bogus', 'MC_Geom.tla', 'MC_Geom_bogus.cfg', base_env, 2, 'any'),
+            ('history-reference', 'MC_GeomHistory.tla', 'MC_GeomHistory_export.cfg', dict(base_env, OUT_FILE=exp_hist), 1, 'ok'),
+            ('impl-HistoryFree', 'MC_GeomHistory.tla', 'MC_GeomHistory_ref.cfg',
+             dict(base_env, GEOM_HISTORY_MODEL='impl'), 1, 'any')]
     for c in classes:       # export runs are single-worker (lines must not interleave): one per class, in parallel
         jobs.append(('export-' + c, 'MC_Geom.tla', 'MC_Geom_export.cfg',
                      dict(base_env, OUT_FILE=exp_geom + '.' + c, GEOM_CLS=c), 1, 'ok'))
@@ -668,7 +762,8 @@ def run(ctx):
     ctx.extra['layer_C_refinement'] = layer_c
     expected_c = {'SliceImplOK': 'ok' if FIXED_SLICE == FIXED_CURV == '1' else 'counterexample',
                   'WidthImplOK': 'ok' if FIXED_COVER == '1' else 'counterexample',
-                  'HeightImplOK': 'ok' if FIXED_COVER == '1' else 'counterexample', 'ShapeImplOK': 'ok'}
+                  'HeightImplOK': 'ok' if FIXED_COVER == '1' else 'counterexample', 'ShapeImplOK': 'ok',
+                  'HistoryFree': 'ok' if FIXED_INPUT_ALIAS == FIXED_ATTR_ALIAS == '1' else 'counterexample'}
     for k, v in expected_c.items():
         if layer_c.get(k) != v:
             raise MachineryError('layer C run %s: %s, expected %s for the mirrored code' % (k, layer_c.get(k), v))
@@ -744,9 +839,43 @@ def run(ctx):
     timing['shape_slice_factories'] = round(time.time() - t_sec, 1)
     t_sec = time.time()
 
+    # ---- 3b. histories: caller-owned constructor arrays / returned arrays overwritten after construction ----
+    with open(exp_hist) as f:
+        hists = [json.loads(x)['hist'] for x in f]
+    singles = [h for h in hists if len(h) == 3]
+    pairs = [h for h in hists if len(h) == 4]
+    if not singles or not pairs:
+        raise MachineryError('history export incomplete')
+    hist_ev = []
+    names = list(HIST_GEOMS)
+    for name in names:
+        base = history_events(name, [], '')
+        base_key = {k: base[0][0][k] for k in ('rot', 'ref', 'axes', 'detpt', 'src', 'd2s', 'err')} if base else None
+        bad_single = set()
+        for h in singles:
+            lab = mut_label(h[1])
+            evs = history_events(name, h[1:-1], lab)
+            if evs and ({k: evs[0][0][k] for k in base_key} != base_key or any(e['k'] == 'slice' and 0 in e['obs'] for e, _ in evs)):
+                bad_single.add(lab)
+            hist_ev += evs
+        for pi, h in enumerate(pairs):
+            if quick and (pi + names.index(name)) % 5 != 0:
+                continue               # quick: every ordered pair on two of the ten history geometries
+            labs = sorted({mut_label(h[1]), mut_label(h[2])} & bad_single)
+            # a pair is attributed to a mutation that already corrupts on its own (family level), else it is new
+            hist_ev += history_events(name, h[1:-1], labs[0] if labs else 'pair')
+    for ev, info in hist_ev:
+        ctx.count(['history', info.get('variant', info).get('geometry') if ev['k'] == 'val' else info.get('geometry'),
+                   info.get('variant', info).get('history') if ev['k'] == 'val' else info.get('history')], True)
+    events += hist_ev
+    ctx.traces += len(hist_ev)
+    ctx.extra['history_replays'] = len(hist_ev)
+    timing['histories'] = round(time.time() - t_sec, 1)
+    t_sec = time.time()
+
     # ---- 4. random driver ----
     rnd = random.Random(ctx.seed * 7919 + 19)
-    nrand = 1000 if quick else 15000
+    nrand = 700 if quick else 15000
     for i in range(nrand):
         g, a, u = random_case(rnd)
         form = rnd.choice(['scalar', 'vector', 'bcast'] + (['slice'] if g['cls'] in SLICEABLE else []))
@@ -796,9 +925,13 @@ def run(ctx):
     saw_slice = any(f.get('cls') == 'par2d' and f.get('form') == 'slice' and f.get('clause') == 'value' for f in fams)
     saw_curv = any(f.get('where') == 'getitem' and f.get('det') == 'curved' for f in fams)
     saw_cover = any(f.get('clause') == 'coverage' for f in fams)
+    saw_in = any(str(f.get('mutated', '')).startswith('caller:') for f in fams)
+    saw_attr = any('returned-attr' in str(f.get('mutated', '')) for f in fams)
     for flag, saw, what in ((FIXED_SLICE, saw_slice, 'Parallel2dGeometry.__getitem__ (FIXED_SLICE)'),
                             (FIXED_CURV, saw_curv, 'ConeBeamGeometry.__getitem__ curvature (FIXED_CURV)'),
-                            (FIXED_COVER, saw_cover, 'cone_beam_geometry extents (FIXED_COVER)')):
+                            (FIXED_COVER, saw_cover, 'cone_beam_geometry extents (FIXED_COVER)'),
+                            (FIXED_INPUT_ALIAS, saw_in, 'constructors keeping caller arrays (FIXED_INPUT_ALIAS)'),
+                            (FIXED_ATTR_ALIAS, saw_attr, 'attributes returned by reference (FIXED_ATTR_ALIAS)')):
         if flag == '0' and not saw:
             ctx.drift_note('layer C still mirrors the defect in %s but the real code no longer shows it' % what)
         if flag == '1' and saw:
@@ -824,7 +957,17 @@ def _axis_aligned(a):
 def replay(body):
     d = body['detail']
     st = d.get('stage')
-    if st in ('replay', 'trace'):
+    if st in ('replay', 'trace') and d.get('form') == 'history':
+        v = d['variant']
+        got = history_events(v['geometry'], v['history'], d['observed'].get('mutated', ''))
+        ev = got[0][0]
+        old = d['observed']
+        same = all(ev[k] == old[k] for k in ('rot', 'ref', 'axes', 'detpt', 'src', 'd2s', 'err'))
+        print('history geometry:', v['geometry'], ' history:', dumps(v['history']))
+        print('observed after the history:', dumps({k: ev[k] for k in ('rot', 'ref', 'detpt', 'err')}))
+        print('TLC clauses then:', d.get('tlc_clauses'))
+        ok = not same
+    elif st in ('replay', 'trace'):
         ev, info = observe(d['g'], d['a'], d['u'], d['form'], d['variant'], d['seed'])
         print('descriptor:', dumps(d['g']))
         print('angle     :', dumps(d['a']), ' param:', dumps(d['u']), ' form:', d['form'], d['variant'])
